@@ -32,6 +32,9 @@ func c02mType(r *rand.Rand, depth int) reflect.Type {
 	}
 	switch {
 	case k < 7:
+		if k == 0 && r.Intn(3) == 0 {
+			return reflect.TypeOf([]byte(nil))
+		}
 		return c02mBasic[r.Intn(len(c02mBasic))]
 	case k == 7:
 		return tgIface
@@ -99,6 +102,10 @@ func c02mTypeWire(w *strings.Builder, t reflect.Type) {
 		w.WriteByte('p')
 		c02mTypeWire(w, t.Elem())
 	case reflect.Slice:
+		if t.Elem().Kind() == reflect.Uint8 {
+			w.WriteByte('y') // []byte
+			return
+		}
 		w.WriteByte('l')
 		c02mTypeWire(w, t.Elem())
 	case reflect.Array:
@@ -320,6 +327,25 @@ func c02mDoc(r *rand.Rand, t reflect.Type, depth int) string {
 	case reflect.Ptr:
 		return c02mDoc(r, t.Elem(), depth+1)
 	case reflect.Slice, reflect.Array:
+		if t.Kind() == reflect.Slice && t.Elem().Kind() == reflect.Uint8 && r.Intn(4) != 0 {
+			// []byte: mostly a base64 string (sometimes with escapes, line ends, or broken), else an array as for any slice
+			txt := c04B64Texts(r, 1)[0]
+			if r.Intn(3) == 0 {
+				var b strings.Builder
+				b.WriteByte('"')
+				for _, c := range txt {
+					if c < 0x20 || c == '"' || c == '\\' || c >= 0x7f || r.Intn(6) == 0 {
+						fmt.Fprintf(&b, "\\u%04x", c)
+					} else {
+						b.WriteByte(c)
+					}
+				}
+				b.WriteByte('"')
+				return b.String()
+			}
+			lit, _ := stdjson.Marshal(string(txt))
+			return string(lit)
+		}
 		n := r.Intn(5)
 		var parts []string
 		for i := 0; i < n; i++ {
